@@ -71,7 +71,7 @@ class Music(util.BaseSection):
             data.append(chan3[0] | fstop << 7)
             data.append(chan4[0])
 
-        return cls(data=data, version=version)
+        return cls(data=cls._pad_data(data, version), version=version)
 
     def to_lines(self):
         """Generates lines for the music section of a .p8 file.
